@@ -209,6 +209,7 @@ func cmdRun(args []string) int {
 	solver := fs.String("solver", "z3", "primary solver")
 	sites := fs.Bool("sites", false, "report decision sites")
 	cpuprof := fs.String("cpuprofile", "", "write CPU profile")
+	pathFlag := fs.String("path", "", "run only this decision list (comma separated), with -debug")
 	fs.Parse(args)
 	if *cpuprof != "" {
 		f, _ := os.Create(*cpuprof)
@@ -292,6 +293,22 @@ func cmdRun(args []string) int {
 			eng := &Engine{prog: ld.prog, coapPkgs: ld.coap, cfg: cfg, params: fsp.Params[*tier], knownIDs: known, workers: *workers, seed: seed}
 			if *debug || *trace {
 				eng.workers = 1
+			}
+			if *pathFlag != "" {
+				var prefix []int
+				for _, x := range strings.Split(*pathFlag, ",") {
+					var v int
+					fmt.Sscan(x, &v)
+					prefix = append(prefix, v)
+				}
+				in, err := eng.newInterp()
+				if err != nil {
+					fmt.Fprintln(os.Stderr, err)
+					return 2
+				}
+				res := in.runPath(fn, prefix)
+				fmt.Printf("outcome=%s msg=%s sched=%v asserts=%v\n", res.Outcome, res.Msg, res.Sched, res.Asserts)
+				return 0
 			}
 			st, err := eng.Explore(fn)
 			if err != nil {
